@@ -250,7 +250,7 @@ Init ==
           /\ src \in LexStrings(MaxLen)
           /\ cid = src
        \/ /\ Mode = "pairs"
-          /\ \E a \in PairLo..PairHi, b \in 1..Len(LexCatalogue), sp \in 1..Len(LexSeparators) :
+          /\ \E a \in { i \in PairLo..PairHi : i <= Len(LexCatalogue) }, b \in 1..Len(LexCatalogue), sp \in 1..Len(LexSeparators) :
                 /\ src = LexCatalogue[a] \o LexSeparators[sp] \o LexCatalogue[b]
                 /\ cid = <<a, sp, b>>
 
